@@ -72,6 +72,8 @@ def check(case):
             return None  # None is a legitimate example: cached like any other (the call counter shows recomputation)
         if case.get('unpicklable'):
             return [x, c, (lambda: None)]  # cannot be pickled: the cache may refuse it (never half-handle it)
+        if case.get('as_obj'):
+            return Rec(x, c)  # an instance of a user class: mutable, but hashable (by identity)
         if case.get('with_array'):
             # ... that also holds a numpy array (a feature matrix): the consumer normalises it IN PLACE
             import numpy as np
@@ -150,6 +152,8 @@ def check(case):
                 return
             if case.get('unpicklable') and isinstance(v, list) and len(v) == 3:
                 v = v[:2]
+            if case.get('as_obj') and isinstance(v, Rec):
+                v = [v.x, v.c]
             if case.get('with_array') and isinstance(v, list) and len(v) == 3:
                 import numpy as np
                 if not (isinstance(v[2], np.ndarray) and v[2].shape == (3,) and
@@ -197,6 +201,9 @@ def check(case):
                 # in-place change of everything the previous access returned: must never reach the cache
                 for obj in last:
                     if obj is None:
+                        continue
+                    if isinstance(obj, Rec):
+                        obj.x, obj.c = 'mutated', -1
                         continue
                     if case.get('with_array') and len(obj) >= 3 and hasattr(obj[2], 'shape'):
                         obj[2] *= 0.5
@@ -315,6 +322,16 @@ def check(case):
         psutil.virtual_memory = saved
 
 
+class Rec:
+    """An example that is an instance of a plain user class (hashable by identity, mutable, picklable)."""
+
+    def __init__(self, x, c):
+        self.x, self.c = x, c
+
+    def __repr__(self):
+        return f'Rec({self.x!r}, {self.c!r})'
+
+
 def replay(case):
     progcheck.setup_process()
     check(case)
@@ -340,6 +357,8 @@ def st_case(draw):
         case['none_x'] = draw(st.integers(0, n - 1))
     if draw(st.integers(0, 2)) == 0 and not case.get('unpicklable'):
         case['with_array'] = True
+    elif draw(st.integers(0, 3)) == 0 and not case.get('unpicklable'):
+        case['as_obj'] = True
     steps = []
     for _ in range(draw(st.integers(1, 9))):
         r = draw(st.integers(0, 11))
